@@ -8,6 +8,8 @@ Line protocol for the C20 model.
   sync.connect <accepted|rejected|connRefused|peerClosed>  -> ok raised=<b> alive=<b>
   sync.connrace (loginReturns|install|loginAndInstall|sessionCloses …) -> ok installed=<b> closed=<b> event=<b> closeReturns=<b>
   witness C20                                         -> ok (name cfg labels)*  the runs the Witness theorems are about
+  sync.exec <execute|execute_sync> <alive at call 0|1> <argument ok 0|1> <returned|exception class> ((c d dl a d2)*) <done at handler 0|1>
+                                                      -> ok <returned|raised:<class>|looping> passes=<n>     `_wait_for` on the given passes
 -/
 namespace NasdaqModel.Driver.SyncD
 open NasdaqModel Sexp SyncFacade
@@ -104,8 +106,41 @@ def runTrace : St → List Label → String
     | none => s!"disabled {labelName l} ;; " ++ finalStr s
     | some s' => s!"{labelName l} ok={b01 (okStep s l)} {summary s'} ;; " ++ runTrace s' ls
 
+def excOf : String → Option Exc
+  | "timeout" => some .timeout | "timeoutSub" => some .timeoutSub | "expiry" => some .expiry
+  | "cancelled" => some .cancelled | "state" => some .state | "eoq" => some .eoq | "value" => some .value
+  | "other" => some .other | "base" => some .base
+  | _ => none
+
+def finOf : String → Option Fin
+  | "returned" => some .returned
+  | s => (excOf s).map Fin.raised
+
+def passOf : Sexp → Option Pass
+  | .list [c, d, dl, a, d2] => do
+    some { completes := (← asNat c) != 0, doneAtCheck := (← asNat d) != 0, deadline := (← asNat dl) != 0,
+           alive := (← asNat a) != 0, doneAtCheck2 := (← asNat d2) != 0 }
+  | _ => none
+
+def resName : Option Res → String
+  | none => "looping"
+  | some .returned => "returned"
+  | some (.raised e) => "raised:" ++ e.name
+
 def handle (op : String) (args : List Sexp) : Option String :=
   match op, args with
+  | "sync.exec", [.atom api, a0, argOk, .atom fin, .list ps, dh] => do
+    let a0 := (← asNat a0) != 0
+    let argOk := (← asNat argOk) != 0
+    let fin ← finOf fin
+    let ps ← ps.mapM passOf
+    let dh := (← asNat dh) != 0
+    let r ← match api with
+      | "execute" => some (execute a0 argOk fin ps dh)
+      | "execute_sync" => some (executeSync a0 argOk a0 fin ps dh)
+      | _ => none
+    let used := if a0 && argOk then passesUsed fin ps else 0
+    some s!"ok {resName r} passes={used}"
   | "sync.run", [c, ls] => do
     let cfg ← cfgOf c
     let ls ← (← asList ls).mapM fun x => do labelOf (← asAtom x)
